@@ -203,22 +203,24 @@ fn chk_garbage(c: &mut Ctx, bytes: &[u8]) {
 // ---------------------------------------------------------------- the command line of git cherry-pick, from git-cherry-pick(1)
 /// options whose value may be a SEPARATE argument
 const VALUE_OPTS: [&str; 6] = ["-m", "--mainline", "--strategy", "-X", "--strategy-option", "--cleanup"];
-/// the history of the parse checks: s00 - s01 - s02 (main, also the previous branch "-") - s03 - s04 - s05 (feat); a branch named
-/// `ours` at s01 and one named `skip` at s00 (legal branch names)
+/// the history of the parse checks: s00 - s01 - s02 (main, also the previous branch "@{-1}") - s03 - s04 - s05 (feat); a branch named
+/// `ours` at s01, one named `skip` at s00 and one named `continue` at s04 (legal branch names).  "-" itself is NOT a ref: git only
+/// understands it as shorthand on the cherry-pick command line, `git rev-parse -` fails.
 fn parse_model() -> Model {
     let mut g = Model::default(); let mut t = g.commit(&[]); for _ in 1..6 { t = g.commit(&[t]); }
-    for (n, i) in [("main", 2usize), ("feat", 5), ("ours", 1), ("skip", 0), ("-", 2), ("@{-1}", 2)] { g.refs.insert(n.to_string(), i); }
+    for (n, i) in [("main", 2usize), ("feat", 5), ("ours", 1), ("skip", 0), ("continue", 4), ("@{-1}", 2)] { g.refs.insert(n.to_string(), i); }
     g
 }
 /// what ONE revision argument names, by construction of parse_model (ranges in application order = oldest first)
 fn rev_expected(g: &Model, a: &str) -> Vec<String> {
+    let a = if a == "-" { "@{-1}" } else { a };      // git-cherry-pick(1): "-" is the previous branch
     if let Some((lo, hi)) = a.split_once("..") {
         match (g.resolve(lo), g.resolve(hi)) { (Some(l), Some(h)) => (l + 1..=h).map(sha).collect(), _ => vec![] }     // a chain: lo+1 ..= hi
     } else { g.resolve(a).map(|i| vec![sha(i)]).unwrap_or_default() }
 }
 fn disputed_kind(a: &str) -> Option<&'static str> {
     match a { "-X" | "--strategy-option" | "--cleanup" => Some("finding_F2_option_value_read_as_revision"),
-        "-" => Some("finding_F3_dash_previous_branch_dropped"), "continue" | "abort" | "quit" | "skip" => Some("finding_F3_bare_word_revision_dropped"), _ => None }
+        _ => None }
 }
 fn chk_parse(c: &mut Ctx, args: &[String]) {
     c.evaluated += 1;
@@ -309,8 +311,8 @@ fn main() {
         if want("parse_cherry_pick_commits") || want("expand_commit_range") || want("resolve_commit_sha") {
             let flags = ["-s", "-x", "-e", "-n", "--ff", "--signoff", "-Skey", "--strategy=ort", "-m1", "-Xours", "--allow-empty", "--no-commit"];
             let valued = [("-m", "1"), ("--mainline", "2"), ("--strategy", "ort"), ("-m", "s03"), ("--strategy", "main")];
-            let revs = ["s03", "feat", "main", "s01..s04", "main..feat", "nosuch", "nosuch..feat", "feat..main", "s05"];
-            let disputed = ["-X", "--strategy-option", "--cleanup", "-", "skip"];
+            let revs = ["s03", "feat", "main", "s01..s04", "main..feat", "nosuch", "nosuch..feat", "feat..main", "s05", "-", "skip", "continue", "abort"];
+            let disputed = ["-X", "--strategy-option", "--cleanup"];
             // exhaustive-small: up to three words
             let mut words: Vec<Vec<String>> = vec![];
             for f in flags { words.push(vec![f.to_string()]); } for (o, v) in valued { words.push(vec![o.to_string(), v.to_string()]); } for r in revs { words.push(vec![r.to_string()]); }
@@ -318,7 +320,9 @@ fn main() {
             if findings { for d in disputed { words.push(vec![d.to_string()]); } words.push(vec!["-X".to_string(), "ours".to_string()]); }
             // finding F1 (repaired in /repo 3c53d708): -s is --signoff, takes no value, must not swallow the revision after it
             for w in [&["-s", "s03"][..], &["-s", "s01..s04"], &["-s", "s03", "feat"], &["-x", "-s", "main..feat", "-s"]] { let v: Vec<String> = w.iter().map(|x| x.to_string()).collect(); chk_parse(&mut c, &v); }
-            if findings { for w in [&["-X", "ours", "s03"][..], &["-"], &["skip"]] { let v: Vec<String> = w.iter().map(|x| x.to_string()).collect(); chk_parse(&mut c, &v); } }
+            // finding F3 (repaired in /repo 3dcb2201): the lone "-" is the previous branch, bare sequencer words are revisions
+            for w in [&["-"][..], &["skip"], &["continue"], &["-", "s03"], &["-x", "-", "skip..s03"], &["quit"]] { let v: Vec<String> = w.iter().map(|x| x.to_string()).collect(); chk_parse(&mut c, &v); }
+            if findings { for w in [&["-X", "ours", "s03"][..]] { let v: Vec<String> = w.iter().map(|x| x.to_string()).collect(); chk_parse(&mut c, &v); } }
             chk_parse(&mut c, &[]);
             for x in &words { chk_parse(&mut c, x); for y in &words { let mut v = x.clone(); v.extend(y.clone()); chk_parse(&mut c, &v); } }
             for _ in 0..3000 { let n = 1 + rng.below(5) as usize; let mut v: Vec<String> = vec![]; for _ in 0..n { v.extend(words[rng.below(words.len() as u64) as usize].clone()); }
